@@ -316,7 +316,7 @@ var c03Mutations = []string{"chainid", "amount", "msgfield", "msgfield", "fee", 
 func genC03(t *rapid.T, tier string) interface{} {
 	pr := &histProfile{OwnerBias: 2, MaxBlocks: 6, MinBlocksOf: []int{1, 3}, MaxTxs: 10, Evidence: 0, Missed: 0, Restart: 0,
 		TxKinds:   []string{"send", "send", "send", "stake", "unstake", "unjail", "award", "burn", "param", "dao", "upgrade"},
-		Mutations: c03Mutations, Modes: []string{"check", "check", "", ""}, WrongSigner: 4}
+		Mutations: c03Mutations, Modes: []string{"check", "check", "recheck", "", "", ""}, WrongSigner: 4}
 	p := genHistory(t, pr)
 	// a funded chain: every key has an account that can pay fees (some without a stored public key)
 	have := map[int]bool{}
